@@ -136,7 +136,8 @@ Section Walk.
                  (bytes_eqb (p_subject_raw p) (p_issuer_raw p) && sigok bs)
                  (md5 bs) (sha1 bs) (sha256 bs)
                  (sha256 (p_spki_raw p)) (sha256 raw_tbs) (sha256 (noct_tbs p))
-                 (sha256 (p_spki_raw p ++ p_subject_raw p)).
+                 (sha256 (p_spki_raw p ++ p_subject_raw p))
+                 (validity_of (p_validity_raw p)).
   Proof.
     unfold C06.meta_of. destruct (cert_parts bs) as [[raw_tbs p]|]; [|discriminate].
     intros H; inversion H; subst. exists raw_tbs, p. split; reflexivity.
@@ -306,3 +307,62 @@ Proof.
       specialize (Hr []). rewrite app_nil_r in Hr. exact Hr. }
     repeat split; assumption.
 Qed.
+
+(* the metadata record carries exactly what the walk found *)
+Theorem meta_raw_fields md5 sha1 sha256 sigok bs m :
+  meta_of md5 sha1 sha256 sigok bs = Some m ->
+  exists raw_tbs p, cert_parts bs = Some (raw_tbs, p) /\
+    m_raw m = bs /\ m_raw_tbs m = raw_tbs /\ m_raw_issuer m = p_issuer_raw p /\
+    m_raw_subject m = p_subject_raw p /\ m_raw_spki m = p_spki_raw p /\
+    m_version m = (p_version p + 1)%Z.
+Proof.
+  intros H. destruct (meta_of_parts _ _ _ _ _ _ H) as (raw_tbs & p & Hp & ->).
+  exists raw_tbs, p. repeat split; try reflexivity. exact Hp.
+Qed.
+
+Lemma nth_raw_single fuel : forall i c t b raw,
+  nth_raw fuel i c = Some (t, b, raw) -> single_tlv raw.
+Proof.
+  induction fuel as [|fuel IH]; intros i c t b raw H; cbn [nth_raw] in H; [discriminate|].
+  destruct (next c) as [[[[t0 b0] raw0] rest]|] eqn:E; [|discriminate].
+  destruct i as [|i]; [inversion H; subst; eapply next_single; exact E|eapply IH; exact H].
+Qed.
+
+(* ValidityPeriod: difference of the two times of the Validity element, each read
+   as a civil date and converted to seconds since the epoch *)
+Theorem validity_is_difference md5 sha1 sha256 sigok bs m v :
+  meta_of md5 sha1 sha256 sigok bs = Some m -> m_validity m = Some v ->
+  exists raw_tbs p tv c rest t1 c1 r1 t2 c2 r2 rest2 a b,
+    cert_parts bs = Some (raw_tbs, p) /\
+    next (p_validity_raw p) = Some (tv, c, rest, []) /\ rest = p_validity_raw p /\
+    take_elems 2 c = Some ([(t1, c1, r1); (t2, c2, r2)], rest2) /\
+    time_secs (t_tag t1) c1 = Some a /\ time_secs (t_tag t2) c2 = Some b /\ v = (b - a)%Z.
+Proof.
+  intros H Hv. destruct (meta_of_parts _ _ _ _ _ _ H) as (raw_tbs & p & Hp & ->).
+  cbn [m_validity] in Hv. unfold validity_of in Hv.
+  destruct (next (p_validity_raw p)) as [[[[tv c] raw] rest]|] eqn:En; [|discriminate].
+  destruct (take_elems 2 c) as [[l rest2]|] eqn:Et; [|discriminate].
+  destruct l as [|[[t1 c1] r1] l]; [discriminate|]. destruct l as [|[[t2 c2] r2] l]; [discriminate|].
+  destruct l; [|discriminate].
+  destruct (negb (t_comp t1) && (t_class t1 =? 0) && negb (t_comp t2) && (t_class t2 =? 0)); [|discriminate].
+  destruct (time_secs (t_tag t1) c1) as [a|] eqn:Ea; [|discriminate].
+  destruct (time_secs (t_tag t2) c2) as [b|] eqn:Eb; [|discriminate].
+  inversion Hv; subst v.
+  destruct (cert_parts_inv _ _ _ Hp) as (t & c0 & t1' & c1' & r1' & _ & _ & _ & _ & Ep).
+  destruct (parse_tbs_inv _ _ Ep) as (c2' & l & c3 & _ & El & ta & ba & tb & bb & tc & bc & td & bd & te & be & tf & bf & -> & _).
+  (* the validity raw slice is a single element: what follows it inside itself is empty *)
+  assert (Hs : single_tlv (p_validity_raw p)).
+  { pose proof (take_elems_nth 6 _ _ _ 3%nat El ltac:(lia)) as Hn. cbn [nth_error] in Hn.
+    eapply nth_raw_single. exact Hn. }
+  destruct Hs as (ts & cs & Es). rewrite Es in En. inversion En; subst.
+  exists raw_tbs, p, tv, c, (p_validity_raw p), t1, c1, r1, t2, c2, r2, rest2, a, b.
+  repeat split; try assumption; reflexivity.
+Qed.
+
+Theorem civil_time_vectors :
+  days_from_civil 1970 1 1 = 0%Z /\ days_from_civil 2000 3 1 = 11017%Z /\
+  days_from_civil 1950 1 1 = (-7305)%Z /\ days_from_civil 9999 12 31 = 2932896%Z /\
+  time_secs 23 [50;53;48;49;48;49;48;48;48;48;48;48;90] = Some 1735689600%Z /\      (* 250101000000Z *)
+  time_secs 24 [57;57;57;57;49;50;51;49;50;51;53;57;53;57;90] = Some 253402300799%Z /\  (* 99991231235959Z *)
+  time_secs 23 [50;51;48;50;50;57;48;48;48;48;48;48;90] = None.                       (* 230229000000Z *)
+Proof. repeat split; vm_compute; reflexivity. Qed.
